@@ -84,6 +84,7 @@ fn base_items() -> Vec<Item> {
         Item::Fact("g", 1),
         Item::Rule("d", "f", Sc::None),
         Item::Rule("d", "f", Sc::Previous),
+        Item::Rule("f", "g", Sc::None),
         Item::CheckIf("f", Some(1), Sc::None),
         Item::CheckIf("d", Some(1), Sc::None),
         Item::CheckIf("f", Some(1), Sc::Previous),
